@@ -42,6 +42,17 @@ func c11Setup() string {
 			panic(harnessBug{err.Error()})
 		}
 	}
+	// the documents exist as (empty) files: the loader never reads them, but code that asks the file system
+	// about a location gets an answer
+	for _, top := range []string{"", c11SpRaw} {
+		for _, f := range []string{"r/s/root.json", "r/s/sib.json", "r/s/sub/o.json", "r/up.json", "r/s2/p.json", "r/t/u/v.json"} {
+			_ = os.WriteFile(filepath.Join(dir, top, f), []byte("{}"), 0o644)
+		}
+	}
+	// <scratch>/lnk is a symbolic link to the scratch directory itself: the same tree under another name
+	if err := os.Symlink(dir, filepath.Join(dir, "lnk")); err != nil && !os.IsExist(err) {
+		panic(harnessBug{err.Error()})
+	}
 	c11Scratch = dir
 	return dir
 }
@@ -169,7 +180,7 @@ func c11RunCase(c *Ctx, raw []byte) string {
 
 func c11Exec(c *Ctx, cs c11Case) string {
 	S := c11Setup()
-	prefix := map[string]string{"file": "file://" + S, "filesp": "file://" + S + "/" + c11SpEsc, "http": "http://h", "https": "https://h:8443"}[cs.Site]
+	prefix := map[string]string{"file": "file://" + S, "filesp": "file://" + S + "/" + c11SpEsc, "filelnk": "file://" + S + "/lnk", "http": "http://h", "https": "https://h:8443"}[cs.Site]
 	g := c11Graphs()[cs.Graph]
 	b, canonical := c11Universe(g, prefix)
 	verifrt.Reset(nil, false)
@@ -257,12 +268,20 @@ type c11Spelling struct {
 
 func c11Spellings(site string, depth int) []c11Spelling {
 	canonPath := "<S>/r/s/root.json"
-	head := map[string]string{"file": "file://", "filesp": "file://", "http": "http://h", "https": "https://h:8443"}[site]
+	head := map[string]string{"file": "file://", "filesp": "file://", "filelnk": "file://", "http": "http://h", "https": "https://h:8443"}[site]
+	viaLink := site == "filelnk"
 	if site != "file" {
 		canonPath = "/r/s/root.json"
 	}
 	if site == "filesp" {
 		canonPath = "<S>/<SP>/r/s/root.json" // <SP> is written escaped in a URL and raw in a bare path
+		site = "file"
+	}
+	if viaLink {
+		// the tree reached through a symbolic link: a location names a document, whatever the file system
+		// does with the name (spellings relative to a working directory are left out: the working directory
+		// the system reports is the physical one)
+		canonPath = "<S>/lnk/r/s/root.json"
 		site = "file"
 	}
 	render := func(head, p string) string {
@@ -290,7 +309,7 @@ func c11Spellings(site string, depth int) []c11Spelling {
 		return true
 	}
 	emit(start)
-	if site == "file" {
+	if site == "file" && !viaLink {
 		emit(st{head: "", p: "", chdir: "r/s", rw: []string{"empty-base-in-cwd"}})
 	}
 	for d := 0; d < depth; d++ {
@@ -309,7 +328,7 @@ func c11Spellings(site string, depth int) []c11Spelling {
 					if segs[i] == "" || strings.HasPrefix(strings.Join(segs[:i+1], "/"), "<S>") && !strings.HasPrefix(strings.Join(segs[:i], "/"), "<S>") {
 						continue
 					}
-					if segs[i] == "<SP>" {
+					if segs[i] == "<SP>" || (viaLink && segs[i] == "lnk") {
 						continue // the rewrites go after the scratch prefix
 					}
 					pre, post := strings.Join(segs[:i], "/"), strings.Join(segs[i:], "/")
@@ -346,7 +365,7 @@ func c11Spellings(site string, depth int) []c11Spelling {
 					n.head = "FILE://"
 					add(n, "upper-scheme")
 				}
-				if s.head == "" && s.p == canonPath {
+				if s.head == "" && s.p == canonPath && !viaLink {
 					for _, cd := range []struct{ dir, rel string }{{"r/s", "root.json"}, {"r", "s/root.json"}, {"r/s/sub", "../root.json"}, {"/", "<REL>"}} {
 						n := s
 						n.chdir = cd.dir
@@ -383,7 +402,7 @@ func c11Run(c *Ctx) {
 	graphs := c11Graphs()
 	fns := []string{"ExpandSpec", "ExpandSchemaWithBasePath", "ResolveRefWithBase", "ExpandParameter", "ExpandResponse"}
 	n := 0
-	for _, site := range []string{"file", "filesp", "http", "https"} {
+	for _, site := range []string{"file", "filesp", "filelnk", "http", "https"} {
 		sp := c11Spellings(site, depth)
 		c.Count("spellings_"+site, 0)
 		if c.Shard == 0 {
@@ -436,7 +455,7 @@ func c11Run(c *Ctx) {
 func init() {
 	register(&CheckDef{
 		ID: "C11", Build: "instr", Run: c11Run, RunCase: c11RunCase,
-		Rule:        "states = every spelling reachable from a canonical root location (file below a real scratch directory, file below a directory whose name holds a space and a non-ASCII letter - escaped in URL spellings, raw in bare paths -, http, https) by <= k rewrites: ./ or x/../ before any segment, a doubled slash, bare path / file:/ / file:/// forms, upper-case scheme, trailing fragment, trailing query, also an empty one (file), relative spelling against four working directories (the worker really changes directory); each used as RelativeBase / base path of ExpandSpec (with and without SkipSchemas), ExpandSchemaWithBasePath, ResolveRefWithBase, ExpandParameter, ExpandResponse on 5 multi-document graphs; oracle = same error, same output and same set of requested URLs as the canonical spelling, every requested URL absolute, clean and fragment-free, normalisation idempotent",
+		Rule:        "states = every spelling reachable from a canonical root location (file below a real scratch directory, file below a directory whose name holds a space and a non-ASCII letter - escaped in URL spellings, raw in bare paths -, file reached through a symbolic link, http, https) by <= k rewrites: ./ or x/../ before any segment, a doubled slash, bare path / file:/ / file:/// forms, upper-case scheme, trailing fragment, trailing query, also an empty one (file), relative spelling against four working directories (the worker really changes directory); each used as RelativeBase / base path of ExpandSpec (with and without SkipSchemas), ExpandSchemaWithBasePath, ResolveRefWithBase, ExpandParameter, ExpandResponse on 5 multi-document graphs; oracle = same error, same output and same set of requested URLs as the canonical spelling, every requested URL absolute, clean and fragment-free, normalisation idempotent",
 		Assumptions: []string{"a doubled *leading* slash, host case and default ports are not among the rewrites the statement lists", "map iteration order is fixed (sorted) so that outputs of cyclic graphs are comparable"},
 		MinOutcomes: 1,
 	})
